@@ -46,6 +46,7 @@ type script struct {
 	lines []string
 	meta  []lineMeta
 	class string // generator family, for the distribution
+	files string // txtar file section appended after the script
 	tier  string
 	seed  int64
 
@@ -92,12 +93,17 @@ type subT struct {
 	panicked string
 }
 
-func (r *rootT) Skip(a ...any)  { r.Fatal(append([]any{"root skip: "}, a...)...) }
-func (r *rootT) Fatal(a ...any) { r.mu.Lock(); r.fatal = append(r.fatal, fmt.Sprint(a...)); r.mu.Unlock(); runtime.Goexit() }
-func (r *rootT) Parallel()      {}
-func (r *rootT) Log(a ...any)   {}
-func (r *rootT) FailNow()       { r.Fatal("root FailNow") }
-func (r *rootT) Verbose() bool  { return false }
+func (r *rootT) Skip(a ...any) { r.Fatal(append([]any{"root skip: "}, a...)...) }
+func (r *rootT) Fatal(a ...any) {
+	r.mu.Lock()
+	r.fatal = append(r.fatal, fmt.Sprint(a...))
+	r.mu.Unlock()
+	runtime.Goexit()
+}
+func (r *rootT) Parallel()     {}
+func (r *rootT) Log(a ...any)  {}
+func (r *rootT) FailNow()      { r.Fatal("root FailNow") }
+func (r *rootT) Verbose() bool { return false }
 func (r *rootT) Run(name string, f func(testscript.T)) {
 	st := &subT{name: name}
 	r.mu.Lock()
@@ -144,7 +150,7 @@ func runImpl(scripts []*script) error {
 		s.grabs = map[string]string{}
 		s.fails = map[int]string{}
 		s.failPrev = map[int]string{}
-		if err := os.WriteFile(s.file, []byte(strings.Join(s.lines, "\n")+"\n"), 0o666); err != nil {
+		if err := os.WriteFile(s.file, []byte(strings.Join(s.lines, "\n")+"\n"+s.files), 0o666); err != nil {
 			return err
 		}
 		byName[s.name] = s
@@ -272,6 +278,10 @@ func (s *script) implLine(i int) string {
 		return "X:" + strings.Join(f, ",")
 	case "grab":
 		return "O:" + hexList([]string{"grabenv", m.id})
+	case "cmpenv":
+		return "O:" + hexList(strings.Fields(s.lines[i]))
+	case "wait":
+		return "O:" + hexList([]string{"wait"})
 	case "raw":
 		return "N"
 	}
@@ -291,6 +301,7 @@ func modelLine(m lineMeta, impl, out string) string {
 // generators
 
 const trickyX = "u v'$X#w"
+const trickyX2 = "u.v '$X#(w)"
 const trickyA = "A#' $a"
 
 var exhaustAlpha = []byte{'a', ' ', '\'', '$', '{', '}', '#', 'X'}
@@ -327,6 +338,88 @@ func exhaustiveScripts(alpha []byte, maxLen, perScript int) []*script {
 			sr.add(w, lineMeta{kind: "raw"})
 		}
 		out = append(out, sp, sr)
+	}
+	return out
+}
+
+// pieces for the second exhaustive family: every sequence of up to maxPieces pieces
+var exhaustPieces = []string{"a", " ", "'", "''", "$X", "${X}", "${X@R}", "#", "\t", "\r", "$", "${", "}", "X@R"}
+
+func pieceScripts(pieces []string, maxPieces, perScript int) []*script {
+	var out []*script
+	var words []string
+	var rec func(prefix string, n int)
+	rec = func(prefix string, n int) {
+		words = append(words, prefix)
+		if n == maxPieces {
+			return
+		}
+		for _, p := range pieces {
+			rec(prefix+p, n+1)
+		}
+	}
+	rec("", 0)
+	// different piece sequences can spell the same text: keep each text once
+	seen := map[string]bool{}
+	uniq := words[:0]
+	for _, w := range words {
+		if !seen[w] {
+			seen[w] = true
+			uniq = append(uniq, w)
+		}
+	}
+	words = uniq
+	for k := 0; k < len(words); k += perScript {
+		sp := &script{name: fmt.Sprintf("pc%04d", k/perScript), extra: []string{"X=" + trickyX2, "a=" + trickyA}, names: []string{"X", "a"}, class: "pieces"}
+		for _, w := range words[k:min(k+perScript, len(words))] {
+			id := sp.nextID()
+			sp.add("probe "+id+" "+w, lineMeta{kind: "probe", id: id})
+		}
+		out = append(out, sp)
+	}
+	return out
+}
+
+// ---- cmpenv: ts.expand applied to whole files (blanks, quotes, '#', newlines are ordinary text there)
+
+type cmpCase struct {
+	vars []string // Setup extra vars
+	text string   // content of the file that cmpenv expands (a final newline is added)
+	want string   // filled from the model: expand(text+"\n")
+}
+
+// fixed part of the initial environment (setup), used to predict expansions without knowing $WORK
+var fixedVars = []string{"GOTRACEBACK=system", "HOME=/no-home", "devnull=/dev/null", "/=/", ":=:", "$=$", "exe="}
+
+func (g *rgen) cmpText() string {
+	var sb strings.Builder
+	for n := 1 + g.r.Intn(8); n > 0; n-- {
+		switch k := g.r.Intn(12); {
+		case k < 3:
+			sb.WriteString(g.plain())
+		case k < 6:
+			sb.WriteString(g.varref())
+		case k < 8:
+			sb.WriteString(g.pick(oddPieces))
+		case k < 10:
+			sb.WriteString(strings.ReplaceAll(g.wild(4), "-", "+")) // no "-- name --" marker lines
+		case k == 10:
+			sb.WriteString(g.pick([]string{"\n", "\r\n", " ", "\t", "\n\n", "${HOME}", "$/", "${:}", "$$", "$exe", "${devnull}"}))
+		default:
+			sb.WriteString(g.pick(seps))
+		}
+	}
+	return sb.String()
+}
+
+func cmpenvScripts(cases []cmpCase) []*script {
+	var out []*script
+	for n, c := range cases {
+		s := &script{name: fmt.Sprintf("cmp%05d", n), extra: c.vars, names: []string{"X"}, class: "cmpenv"}
+		s.add("cmpenv p t", lineMeta{kind: "cmpenv"})
+		s.add("! cmpenv q t", lineMeta{kind: "cmpenv"})
+		s.files = "-- p --\n" + c.want + "-- q --\n" + "x" + c.want + "-- t --\n" + c.text + "\n"
+		out = append(out, s)
 	}
 	return out
 }
@@ -483,9 +576,15 @@ func selfPath() string {
 	return p
 }
 
-func (s *script) addExec() {
+// addExec runs the helper in the foreground (exec) or in the background (execBackground, then wait).
+func (s *script) addExec(background bool) {
 	id := s.nextID()
-	s.add("exec "+sq(selfPath())+" "+envDumpArg, lineMeta{kind: "exec", id: id})
+	if background {
+		s.add("exec "+sq(selfPath())+" "+envDumpArg+" &", lineMeta{kind: "exec", id: id})
+		s.add("wait", lineMeta{kind: "wait"})
+	} else {
+		s.add("exec "+sq(selfPath())+" "+envDumpArg, lineMeta{kind: "exec", id: id})
+	}
 	s.add("grabenv "+id, lineMeta{kind: "grab", id: id})
 }
 
@@ -504,7 +603,7 @@ func randomScript(r *rand.Rand, n int, nLines, nExec int) *script {
 		if execAt[i] {
 			id := s.nextID()
 			s.add("probe "+id, lineMeta{kind: "probe", id: id, oracle: "childprobe"})
-			s.addExec()
+			s.addExec(r.Intn(3) == 0)
 		}
 		switch k := r.Intn(10); {
 		case k < 3:
@@ -542,7 +641,7 @@ func oracleScript(r *rand.Rand, n int, nLines, nExec int) *script {
 		if execAt[i] {
 			id := s.nextID()
 			s.add("probe "+id, lineMeta{kind: "probe", id: id, oracle: "child", wantEnv: snapshot()})
-			s.addExec()
+			s.addExec(r.Intn(3) == 0)
 		}
 		switch k := r.Intn(10); {
 		case k < 3: // assignment with a fully quoted argument: the value is known
@@ -565,6 +664,23 @@ func oracleScript(r *rand.Rand, n int, nLines, nExec int) *script {
 			}
 			id := s.nextID()
 			s.add("probe "+id+sb.String(), lineMeta{kind: "probe", id: id, oracle: "quote", wantArgs: ws})
+		case k == 6: // an unquoted '#' ends the line; unquoted text splits at blank runs
+			var ws []string
+			var sb strings.Builder
+			for m := 1 + r.Intn(3); m > 0; m-- {
+				if r.Intn(2) == 0 {
+					w := g.plain()
+					ws = append(ws, w)
+					sb.WriteString(g.pick(seps) + w)
+				} else {
+					w := g.wild(5)
+					ws = append(ws, w)
+					sb.WriteString(g.pick(seps) + sq(w))
+				}
+			}
+			tail := g.pick([]string{"", " ", "\t\r", " #", "#", " # " + g.wild(6), "#'" + g.wild(4), "\t#$X ${", " ## '"})
+			id := s.nextID()
+			s.add("probe "+id+sb.String()+tail, lineMeta{kind: "probe", id: id, oracle: "hash", wantArgs: ws})
 		case k < 8: // values are neither re-split nor re-expanded nor cut at '#'
 			name := []string{"K", "A", "X", "B"}[r.Intn(4)]
 			v := cur[name]
@@ -648,6 +764,12 @@ func (s *script) oracles(res *corr.Result) {
 			res.Distribution["oracle-quote"]++
 			if !equalStrings(got, m.wantArgs) {
 				res.Violate("C02", in, fmt.Sprintf("quoting law: got %q want %q", got, m.wantArgs), "quoting-law")
+			}
+		case "hash":
+			res.OracleChecked["C02"]++
+			res.Distribution["oracle-hash-split"]++
+			if !equalStrings(got, m.wantArgs) {
+				res.Violate("C02", in, fmt.Sprintf("splitting / comment: got %q want %q", got, m.wantArgs), "split-comment")
 			}
 		case "noresplit":
 			res.OracleChecked["C02"]++
@@ -742,6 +864,39 @@ func equalStrings(a, b []string) bool {
 // ------------------------------------------------------------------------------------------------
 // direct comparisons of the modelled standard-library functions
 
+// exhaustive part: QuoteMeta on every single byte and every pair of "interesting" bytes; os.Expand
+// (with expand's mapping) on every string over a syntax alphabet up to oxLen.
+var oxAlpha = []byte{'$', '{', '}', 'a', '1', '@', 'R', ' '}
+
+func stdExhaustive(oxLen int) (cases []string, impl []string) {
+	for b := 0; b < 256; b++ {
+		w := string([]byte{byte(b)})
+		cases = append(cases, "qm "+corr.Hx([]byte(w)))
+		impl = append(impl, corr.Hx([]byte(regexp.QuoteMeta(w))))
+		w = "a" + w + "."
+		cases = append(cases, "qm "+corr.Hx([]byte(w)))
+		impl = append(impl, corr.Hx([]byte(regexp.QuoteMeta(w))))
+	}
+	vars := []string{"a=<A>", "a1=<A1>", "1=<1>", "@=<at>", "R=<R>", "$=$", "a@=<aat>"}
+	m := map[string]string{}
+	for _, kv := range vars {
+		i := strings.Index(kv, "=")
+		m[kv[:i]] = kv[i+1:]
+	}
+	hv := hexList(vars)
+	enumWords(oxAlpha, oxLen, func(text string) {
+		want := os.Expand(text, func(key string) string {
+			if k1 := strings.TrimSuffix(key, "@R"); len(k1) != len(key) {
+				return regexp.QuoteMeta(m[k1])
+			}
+			return m[key]
+		})
+		cases = append(cases, "ox "+hv+" "+corr.Hx([]byte(text)))
+		impl = append(impl, corr.Hx([]byte(want)))
+	})
+	return
+}
+
 func stdCases(r *rand.Rand, n int) (cases []string, impl []string) {
 	g := &rgen{r: r, allowN: true}
 	for i := 0; i < n; i++ {
@@ -825,9 +980,9 @@ func runScript(tier string, seed int64, model string, replay string) *corr.Resul
 	res := corr.NewResult("script", tier, seed)
 	r := rand.New(rand.NewSource(seed))
 
-	maxLen, nRandom, nOracle, randLines, nExec, nStd := 6, 100, 40, 200, 2, 6000
+	maxLen, maxPieces, nRandom, nOracle, randLines, nExec, nStd, nCmp := 6, 4, 300, 120, 200, 3, 30000, 600
 	if tier == "thorough" {
-		maxLen, nRandom, nOracle, randLines, nExec, nStd = 7, 1500, 400, 300, 3, 100000
+		maxLen, maxPieces, nRandom, nOracle, randLines, nExec, nStd, nCmp = 7, 5, 3000, 1000, 300, 3, 300000, 6000
 	}
 	// generation is deterministic in (tier, seed): a replay regenerates everything and keeps one script
 	var scripts []*script
@@ -840,6 +995,30 @@ func runScript(tier string, seed int64, model string, replay string) *corr.Resul
 	}
 	for i := 0; i < nOracle; i++ {
 		scripts = append(scripts, oracleScript(r, i, randLines/2, nExec))
+	}
+	scripts = append(scripts, pieceScripts(exhaustPieces, maxPieces, 5000)...)
+	res.Extra["exhaustive_spaces"] = append(res.Extra["exhaustive_spaces"].([]string),
+		fmt.Sprintf("every line `probe <id> <w>` for all w that are concatenations of up to %d pieces of %q, with X=%q and a=%q bound", maxPieces, exhaustPieces, trickyX2, trickyA))
+	// cmpenv: the model predicts ts.expand of a whole file; `cmpenv` must agree and `! cmpenv` must see a difference
+	{
+		g := &rgen{r: r, allowN: true}
+		cc := make([]cmpCase, nCmp)
+		req := make([]string, nCmp)
+		for i := range cc {
+			cc[i].vars = []string{"X=" + g.wild(5), "a=" + g.wild(3), "K=" + g.wild(6), "X=" + g.wild(5)}
+			cc[i].text = g.cmpText()
+			req[i] = "ox " + hexList(append(append([]string{}, fixedVars...), cc[i].vars...)) + " " + corr.Hx([]byte(cc[i].text+"\n"))
+		}
+		pred, err := mdl.Run(model, nil, req, 0)
+		if err != nil {
+			res.Observations = append(res.Observations, "model driver error: "+err.Error())
+			res.Disagree("<driver>", "", err.Error())
+			return res
+		}
+		for i := range cc {
+			cc[i].want = string(corr.Unhx(pred[i]))
+		}
+		scripts = append(scripts, cmpenvScripts(cc)...)
 	}
 	for _, s := range scripts {
 		s.tier, s.seed = tier, seed
@@ -885,6 +1064,14 @@ func runScript(tier string, seed int64, model string, replay string) *corr.Resul
 	var stdReq, stdImpl []string
 	if replay == "" {
 		stdReq, stdImpl = stdCases(r, nStd)
+		oxLen := 5
+		if tier == "thorough" {
+			oxLen = 7
+		}
+		er, ei := stdExhaustive(oxLen)
+		stdReq, stdImpl = append(stdReq, er...), append(stdImpl, ei...)
+		res.Extra["exhaustive_spaces"] = append(res.Extra["exhaustive_spaces"].([]string),
+			fmt.Sprintf("os.Expand with expand's mapping vs the model on every string over %q up to length %d; regexp.QuoteMeta vs the model on every single byte", oxAlpha, oxLen))
 	}
 	modelOut, err := mdl.Run(model, nil, append(append([]string{}, cases...), stdReq...), 0)
 	if err != nil {
@@ -930,13 +1117,18 @@ func runScript(tier string, seed int64, model string, replay string) *corr.Resul
 		}
 	}
 	res.Rule = "script lines (each run through the real testscript.RunT with ContinueOnError, observed by a custom `probe` command, the `unknown command` message, and a helper program run with exec, and through the Lean model of parse/expand/cmdEnv/childEnv) that contain a quote, '$' or '#'; exhaustive lines are counted once per distinct text, random/oracle lines once per (script, position) because each runs in its own assignment history"
-	for _, i := range []int{0, 1, len(scripts) / 2, len(scripts) - 1} {
-		if i >= 0 && i < len(scripts) && len(scripts[i].lines) > 0 {
-			s := scripts[i]
-			j := len(s.lines) / 2
-			outs := strings.Split(modelOut[i], ";")
-			if j < len(outs) {
-				res.Samples = append(res.Samples, map[string]string{"script": s.name, "vars": strings.Join(s.extra, "\x1f"), "line": s.lines[j], "impl": s.implLine(j), "model": outs[j]})
+	// samples: one successfully parsed probe line (with '$' or a quote) per generator family
+	sampled := map[string]bool{}
+	for i, s := range scripts {
+		if sampled[s.class] || s.panicked != "" {
+			continue
+		}
+		outs := strings.Split(modelOut[i], ";")
+		for j := len(s.lines) / 2; j < len(s.lines) && j < len(outs); j++ {
+			if impl := s.implLine(j); s.meta[j].kind == "probe" && strings.HasPrefix(impl, "P:") && nontrivialLine(s.lines[j]) {
+				sampled[s.class] = true
+				res.Samples = append(res.Samples, map[string]string{"family": s.class, "script": s.name, "setup_vars": fmt.Sprintf("%q", s.extra), "line": fmt.Sprintf("%q", s.lines[j]), "impl": impl, "model": outs[j]})
+				break
 			}
 		}
 	}
@@ -947,6 +1139,7 @@ func runScript(tier string, seed int64, model string, replay string) *corr.Resul
 	sort.Strings(keys)
 	res.Observations = append(res.Observations,
 		"the @R oracle is restricted to values that are valid UTF-8 without U+FFFD: Go's regexp rejects non-UTF-8 patterns and reads invalid input bytes as U+FFFD",
-		"a NUL byte in any environment entry makes os/exec refuse to start the child (modelled as X:nul)")
+		"a NUL byte in any environment entry makes os/exec refuse to start the child (modelled as X:nul)",
+		"outside C02 (misuse of Params.Setup): an Env.Vars entry without '=' makes a bare `env` line panic in cmdEnv (kv[:strings.Index(kv, \"=\")] with index -1); generated Setup variables always contain '='")
 	return res
 }
